@@ -81,7 +81,7 @@ class Contract:
         self.body = body                     # optional custom body runner (constructors)
         self.spec = spec
         self.instances = instances or []     # list of Instance
-        self.props = tuple(props)
+        self.props = props if isinstance(props, dict) else tuple(props)
         self.doc = doc
         self.compare = None                  # optional custom comparison
 
@@ -398,8 +398,9 @@ def verify_function(interp, contract: Contract, inst: Instance, prop_prefix=""):
 
     def run(ctx):
         ctx.oblig_prefix = f"{prop_prefix}{contract.qualname.replace('pulsarbat.', '')}/"
-        args, kwargs = inst.build(interp, ctx)
-        pristine_args, pristine_kwargs = inst.build(interp, ctx)      # identical symbols, separate objects
+        from .concrete import SymNamer
+        args, kwargs = inst.build(interp, ctx, SymNamer())
+        pristine_args, pristine_kwargs = inst.build(interp, ctx, SymNamer())   # identical symbols, separate objects
         mark_inputs(ctx, args, kwargs)
         interp.no_contract.add(contract.qualname)
         try:
